@@ -209,7 +209,7 @@ Definition chk (v : value) (leaves : list (list string * value)) : bool :=
                                 kw["log_q"] = [1.0, 1.0, 2.0, 0.0]
                             if cname == "SMCSamples":
                                 kw.update(beta=0.25, log_evidence=-1.5, log_evidence_error=0.125)
-                            s = cls(np.arange(8.0).reshape(4, 2) + 0.5, xp=xp, dtype=dt, parameters=["alpha", "beta_p"], **kw)
+                            s = cls(np.arange(8.0).reshape(4, 2) + 0.5, xp=xp, dtype=dt, parameters=["zeta", "alpha"], **kw)
                             case = {"cls": cname, "ns": nsname, "dtype": width, "fields": fields, "flat": flat}
                             ctx.count(json.dumps(case), True, kind=f"samples/{cname}")
                             path = os.path.join(root, "s.h5")
@@ -352,7 +352,7 @@ Definition chk (v : value) (leaves : list (list string * value)) : bool :=
             flow_case(f"zuko-plain-{width}", lambda: ZukoFlow(2, seed=1, dtype=width), {"n_epochs": 1})
             flow_case(f"zuko-options-{width}", lambda: ZukoFlow(2, seed=1, dtype=width, hidden_features=[8, 8], transforms=2), {"n_epochs": 1})
             flow_case(f"zuko-bounded-{width}", lambda: ZukoFlow(2, seed=1, dtype=width, data_transform=FlowTransform(
-                parameters=["a", "b"], prior_bounds={"a": (-9.0, 9.0), "b": (-9.0, 9.0)}, xp=ZukoFlow.xp, dtype=width)), {"n_epochs": 1})
+                parameters=["w", "b"], prior_bounds={"b": (-7.0, 9.0), "w": (-9.0, 11.0)}, xp=ZukoFlow.xp, dtype=width)), {"n_epochs": 1})
             flow_case(f"flowjax-plain-{width}", lambda: FlowJax(2, key=jax.random.key(0), dtype=width), {"max_epochs": 1, "show_progress": False})
         # ---------------- (f) configuration rebuilt by resume_from_file
         from aspire import Aspire
